@@ -14,6 +14,9 @@ Deciding specs:
       abbreviation offsets; ONE cache taken through [set,] populate(section X),
       populate(section Y != X with different tables at the same offsets) and then
       asked for every unit and probe offset: get = direct parse of the current section.
+  MCDies.tla / Dies.tla (C02's, reused unedited): EntriesTree scripts over forests with
+      DW_AT_sibling in which an inner children() iterator is abandoned and the outer one
+      continued; expectation = forest semantics = a new tree at that node.
   MCLineHist.tla (over LineSM.tla): ONE LineRows iterator over histories of <= 3 / 4
       sequences (normal, tombstoned from the start, tombstoned mid-way, empty, open);
       every sequence on the long-lived iterator = a fresh iterator (TLC), rows(),
@@ -191,6 +194,74 @@ def check_linehist(ctx, case, o):
     return ok
 
 
+class _TreeCtx:
+    """C02's Checker reports through a ctx; prefix its signatures for C20's tree-history part"""
+    def __init__(self, ctx):
+        self.ctx = ctx
+        self.drift = ctx.drift
+
+    def violation(self, sig, what, case=None, obs=None, extra=None):
+        self.ctx.violation("treehist:" + sig, "EntriesTree iterator continued after an abandoned inner children() iterator "
+                           "(R=root, D=children() of the current node, N=next(), A=drop the inner iterator and go on with the outer): " + what,
+                           case, obs, extra)
+
+    def nontrivial(self, key):
+        self.ctx.nontrivial("T" + key)
+
+
+MCDIES_CFG = """INIT Init
+NEXT Next
+VIEW View
+CHECK_DEADLOCK FALSE
+CONSTANTS
+  Modes = {"nav"}
+  MaxN = %d
+  RestrictN = %d
+  Pads = {0}
+  Combos <- CombosTiny
+  FullCombos <- FullTiny
+  Rotate = FALSE
+  MaxA = 1
+"""
+
+
+def tree_histories(ctx, profiles):
+    """C02's model (spec/Dies.tla, spec/MCDies.tla: complete state graph of EntriesTree per forest, every
+    transition with the forest-semantics expectation checked inside TLC) and driver (gvh-dies), neither
+    edited: keep the EntriesTree scripts over forests that carry DW_AT_sibling in which an inner children()
+    iterator is abandoned (A) and the tree is used afterwards.  The expectation of the last call is the
+    forest's (= what a new tree positioned at that node reports)."""
+    import c02
+    with open(os.path.join(SPEC, "MCDies_c20_run.cfg"), "w") as f:
+        f.write(MCDIES_CFG % ((4, 4) if ctx.quick else (5, 5)))
+    r = ctx.tlc("MCDies", "MCDies_c20_run", timeout=7200, cases_name="dies-tree")
+    kept = os.path.join(ctx.work, "dies-tree-kept.ndjson")
+    n = 0
+    with open(kept, "w") as out:
+        for c in read_ndjson(r.cases_path):
+            if c["t"] == "stream":
+                out.write(json.dumps(c, separators=(",", ":")) + "\n")
+            elif c["t"] == "nav" and c.get("api") == "tree" and any(c["sid"][2]) and "A" in c["script"][:-1]:
+                out.write(json.dumps(c, separators=(",", ":")) + "\n")
+                n += 1
+    os.remove(r.cases_path)
+    if n == 0:
+        raise ToolError("no tree history cases")
+    replay_path, exp_path, nstreams, nnav = c02.split_cases(ctx, kept)
+    bins = {p: ctx.build("gvh-dies", p) for p in profiles}
+    for prof, b in bins.items():
+        obs = ctx.replay(b, replay_path, tag="tree-" + prof, per_case_timeout=60)
+        ck = c02.Checker(_TreeCtx(ctx), prof)
+        for i, (case, exps) in enumerate(zip(read_ndjson(replay_path), read_ndjson(exp_path))):
+            if not case.get("navonly"):
+                continue                      # the stream's own header / raw checks belong to C02
+            o = obs.get(i)
+            for nav, e in zip(case.get("navs", []), exps):
+                nav["exp"] = e
+            ck.stream(case, o)
+    ctx.cov["tree_history_scripts"] = nnav
+
+
 def seq_same(exp, got, with_entry):
     """lists of {res, e|cur}; entries after an error are not compared; error kinds are not fixed"""
     if len(exp) != len(got):
@@ -308,6 +379,9 @@ def run(ctx):
                 ctx.sample({"sys": "linehist", "history": case["pick"], "rows": case["exp"]["rows"],
                             "sequences": [[e["start"], e["end"]] for e in case["exp"]["seqs"]]})
 
+    # --- DIE tree with DW_AT_sibling: outer iterator continued after an abandoned inner one (C02's model + driver)
+    tree_histories(ctx, profiles)
+
     # --- V: long random histories on long-lived contexts (the model context persists too)
     n = 150 if q else 1500
     tr = ctx.record(cfi["dev"], "hist-trace.ndjson", ["--seed", ctx.seed + 17, "--n", n, "--corpus", 0, "--maxlen", 60])
@@ -318,6 +392,7 @@ def run(ctx):
         "error kinds are compared only where C06 fixes them (StackFull / TooManyRegisterRules / CfiInstructionInInvalidContext)",
         "DIE model: DWARF 4, 32-bit, forms data1/data2/udata/flag_present, no DW_AT_sibling (sibling fast path is covered by C02)",
         "cursor / tree clones are compared through the sequences they yield (iterators are plain values)",
+        "tree histories: forests <= 4 (quick) / 5 (thorough) entries with DW_AT_sibling under one header / code scheme; model and driver are C02's (Dies.tla, MCDies.tla, gvh-dies); the expectation is the forest semantics, which TLC checks to equal the as-coded EntriesTree on every transition",
         "line rows: the machine is LineSM.tla's as-coded model (C04); sequence templates are fixed, only their order varies; the replay driver is C04's gvh-linesm",
         "other iterator kinds (range / location lists, CfiEntriesIter) are not modelled here",
     ]
